@@ -19,6 +19,8 @@ META = {
                   "seeded draws). Stage C: the driver builds them through the public AdtBuilder API and an independent chunk walker reads every "
                   "produced file (rounds 0..4). Stage D, decided by TLC on logged integers: framing tiles the file and every MCNK payload; every "
                   "MHDR / MCIN / MCNK ofs_* entry points at a chunk header with the named tag (and is non-zero when the chunk exists); MCIN sizes; "
+                  "MMID / MWID entries = start offsets of the names in MMDX / MWMO; write_to_file onto an absent / shorter / longer path = "
+                  "to_bytes (length, token, framing); build() rejects only shapes the builder contract calls invalid; "
                   "MCNK size/count words; version rule; len(bytes_n) <= len(bytes_n-1); the behaviour Reset Build (File Parse Rebuild)*; and "
                   "equality of per-section content tokens parse-vs-input (with the version rules choosing the expected token) and across rounds.",
     "level_note": "Only observed and compared as opaque tokens (SHA-1 prefix of the Debug rendering, computed by the driver): all payload "
@@ -35,7 +37,7 @@ META = {
 }
 
 VERS = ["VanillaEarly", "VanillaLate", "TBC", "WotLK", "Cataclysm", "MoP"]
-SHAPE_KEYS = ["ver", "ntex", "nmdl", "nwmo", "nddf", "nmodf", "mcnk", "where", "mcvt", "mcnr", "nly", "mcrf", "mcal", "mcsh",
+SHAPE_KEYS = ["ver", "ntex", "nmdl", "nwmo", "nddf", "nmodf", "dtex", "dmdl", "dwmo", "mcnk", "where", "mcvt", "mcnr", "nly", "mcrf", "mcal", "mcsh",
               "mclq", "mccv", "mcse", "mclv", "water", "wlay", "wbase", "mfbo", "mtxf", "mamp", "mtxp", "bmesh"]
 
 
@@ -50,6 +52,7 @@ def sig(b):
     r = rec.get("round")
     s["round"] = "first" if r == 0 else ("rebuild" if isinstance(r, int) else None)
     s["roundn"] = r
+    s["pre"] = rec.get("pre")
     # derived class attributes used by the known findings
     s["water_on"] = rs.get("water") not in (None, "none")
     wl = rs.get("wl") or {}
@@ -116,7 +119,7 @@ def run(ctx, cases_override=None):
         ctx.notes.append("no tile completed all 4 rebuild rounds")
     nontrivial = sum(1 for s in shapes if any(json.loads(s)[k] not in (False, 0, "none", "auto") for k in
                                               ("nmdl", "nwmo", "mcrf", "mcal", "mcsh", "mclq", "mccv", "mcse", "mclv", "water", "mfbo",
-                                               "mtxf", "mamp", "mtxp", "bmesh")))
+                                               "mtxf", "mamp", "mtxp", "bmesh", "dtex", "dmdl", "dwmo")))
     cov = {
         "traces_validated_against_impl": res["traces"],
         "samples": samples,
@@ -126,9 +129,9 @@ def run(ctx, cases_override=None):
         "tiles_through_all_4_rebuild_rounds": full,
         "evaluations": res["events"] - res["traces"],
         "distinct_nontrivial": nontrivial,
-        "rule": "distinct_nontrivial = number of distinct Reset shapes (26 class attributes) of this run in which at least one of nmdl, nwmo, "
-                "mcrf, mcal, mcsh, mclq, mccv, mcse, mclv, water, mfbo, mtxf, mamp, mtxp, bmesh is not its default (0 / false / none); "
-                "evaluations = recorded events other than Reset (Build, File with the full walker observation, Parse with 27 section tokens, "
+        "rule": "distinct_nontrivial = number of distinct Reset shapes (29 class attributes) of this run in which at least one of nmdl, nwmo, "
+                "mcrf, mcal, mcsh, mclq, mccv, mcse, mclv, water, mfbo, mtxf, mamp, mtxp, bmesh, dtex, dmdl, dwmo is not its default (0 / false / none); "
+                "evaluations = recorded events other than Reset (Build, File with the full walker observation, Parse with 29 section tokens, Write with the file contents, "
                 "Rebuild), each judged by TLC; traces = Reset-delimited tiles; exhaustive is false: stage B is a reduced product of a ~10^10 "
                 "shape space",
         "exhaustive": False,
